@@ -165,9 +165,17 @@ func cmdCheck(args []string) int {
 		results = append(results, r)
 		all = append(all, r.Obligations...)
 	}
+	known := loadKnownFindings(filepath.Join(verifDir, "known_findings.jsonl"))
+	cfg.SkipRetry = func(name string) bool {
+		for i := range known {
+			if known[i].Property == id && known[i].Obligation == id+"/"+name && known[i].Status == "known" {
+				return true
+			}
+		}
+		return false
+	}
 	dischargeAll(all, covers, cfg)
 
-	known := loadKnownFindings(filepath.Join(verifDir, "known_findings.jsonl"))
 	isKnown := func(name string) *KnownFinding {
 		for i := range known {
 			if known[i].Property == id && known[i].Obligation == name && known[i].Status == "known" {
